@@ -4,9 +4,11 @@
      - wherever the MODEL answers (`key_match2 k p = Some b` ..: the rewritten text is in the model's class) the
        generated function returns the same value, for ALL keys and ALL patterns;  [Gen/Regex.v restates the crate on
        ASCII haystacks: that is the scope in which the statements speak about the real code]
-     - key_match4: the same PROVIDED the number of `{name}` tokens equals the number of capture groups of the rewritten
-       text; otherwise, when the key matches, the source PANICS ("number of tokens is not equal to number of values")
-       while the model answers: fm_key_match4_refuted is a FINDING about the model (confirmed by running the real code);
+     - key_match4: the model answers None exactly where the source PANICS on its token count ("number of tokens is not
+       equal to number of values": the rewritten text has another number of capture groups than there are {name}
+       tokens, and the key matches), so on the whole class gen_key_match4 = key_match4 (fm_key_match4_model);
+     - regex_match = the model regex_match_words wherever it answers (alternatives of literal words, bare or in
+       parentheses, unanchored; one word or one parenthesised alternation between anchors);
      - where the model answers None: a `{` that does not start a counted repetition after a prefix of the class makes
        the crate refuse the text: key_match2 / key_match3 / key_match5 / key_get3 PANIC (unwrap), key_get2 returns ""
        and key_match4 returns false (`if let Ok` / `match .. Err(_) => return false`);
@@ -241,27 +243,25 @@ Proof.
   unfold rs_vec_len. destruct (Nat.eqb (length (brace_names ns_plus_cap (slash_star k2))) (length ts)); cbn [negb]; [|reflexivity].
   unfold rs_iter_zip. apply (km4_loop _ (fun tok v vals => eq_refl)).
 Qed.
-(* the token count of the source: as many `{name}` tokens as capture groups in the rewritten text *)
-Definition km4_counts_agree (k2 : text) : Prop :=
-  forall atoms, parse_regex (fst (rewrite_km4 k2)) = Some atoms -> ncaps atoms = length (snd (rewrite_km4 k2)).
-Theorem fm_key_match4_ok : forall k1 k2 b, km4_counts_agree k2 ->
-  key_match4 k1 k2 = Some b -> gen_key_match4_r k1 k2 = FRet b.
+(* the model answers None exactly where the source panics on its token count, so on the whole class the `option`
+   view of the generated function IS the model *)
+Theorem fm_key_match4_model : forall k1 k2 atoms, parse_regex (fst (rewrite_km4 k2)) = Some atoms ->
+  gen_key_match4 k1 k2 = key_match4 k1 k2.
 Proof.
-  intros k1 k2 b Hc H. unfold key_match4 in H. destruct (rewrite_km4 k2) as [tx ns] eqn:Er.
-  destruct (parse_regex tx) as [atoms|] eqn:E; [|discriminate]. injection H as <-.
-  assert (E' : parse_regex (fst (rewrite_km4 k2)) = Some atoms) by (rewrite Er; exact E).
-  rewrite (fm_key_match4_class k1 k2 atoms E'). specialize (Hc atoms E'). rewrite Er in *. cbn [fst snd] in *.
-  destruct (amatch atoms k1) as [cs|] eqn:Ea; [|reflexivity].
-  rewrite (amatch_length _ _ _ Ea), Hc, Nat.eqb_refl. reflexivity.
+  intros k1 k2 atoms H. unfold gen_key_match4. rewrite (fm_key_match4_class k1 k2 atoms H).
+  unfold key_match4. destruct (rewrite_km4 k2) as [tx ns]. cbn [fst snd] in *. rewrite H.
+  destruct (amatch atoms k1) as [cs|]; [|reflexivity].
+  destruct (Nat.eqb (length ns) (length cs)); reflexivity.
 Qed.
-(* the FULL statement (without the token count) is FALSE of the model: a pattern that brings its own capture group.
-   Real code: key_match4("/a/b", "/([^/]+)/{id}") panics (KeyMatch4: number of tokens is not equal to number of
-   values); the model answers Some true.  FINDING (model wrong), confirmed by running /repo. *)
-Definition fm_key_match4_full : Prop :=
-  forall k1 k2 b, key_match4 k1 k2 = Some b -> gen_key_match4_r k1 k2 = FRet b.
-Theorem fm_key_match4_refuted :
-  exists k1 k2 b, key_match4 k1 k2 = Some b /\ gen_key_match4_r k1 k2 = FPanic.
-Proof. exists (T "/a/b"), (T "/([^/]+)/{id}"), true. split; vm_compute; reflexivity. Qed.
+Theorem fm_key_match4_ok : forall k1 k2 b, key_match4 k1 k2 = Some b -> gen_key_match4_r k1 k2 = FRet b.
+Proof.
+  intros k1 k2 b H. unfold key_match4 in H. destruct (rewrite_km4 k2) as [tx ns] eqn:Er.
+  destruct (parse_regex tx) as [atoms|] eqn:E; [|discriminate].
+  assert (E' : parse_regex (fst (rewrite_km4 k2)) = Some atoms) by (rewrite Er; exact E).
+  rewrite (fm_key_match4_class k1 k2 atoms E'). rewrite Er. cbn [fst snd].
+  destruct (amatch atoms k1) as [cs|]; [|injection H as <-; reflexivity].
+  destruct (Nat.eqb (length ns) (length cs)); [injection H as <-; reflexivity|discriminate].
+Qed.
 (* precisely: whenever the counts differ and the key matches, the source panics *)
 Theorem fm_key_match4_panics : forall k1 k2 atoms cs,
   parse_regex (fst (rewrite_km4 k2)) = Some atoms -> amatch atoms k1 = Some cs ->
@@ -333,75 +333,104 @@ Proof. intros k p v Hg. apply fm_key_get2_ok, kg2_spec, Hg. Qed.
 Theorem fm_key_get3_spec : forall k p v, grammar p = true -> gen_key_get3_r k (render3 p) v = FRet (spec_get p k v).
 Proof. intros k p v Hg. apply fm_key_get3_ok, kg3_spec, Hg. Qed.
 Theorem fm_key_match4_spec : forall k p, grammar p = true -> gen_key_match4_r k (render3 p) = FRet (spec_km4 p k).
-Proof.
-  intros k p Hg. apply fm_key_match4_ok; [|apply km4_spec, Hg].
-  intros atoms H. destruct (parse_km4 p Hg) as [H1 H2]. rewrite H1 in H. injection H as <-.
-  rewrite H2. apply ncaps_compile.
-Qed.
+Proof. intros k p Hg. apply fm_key_match4_ok, km4_spec, Hg. Qed.
 
 (* the `option` views *)
 Lemma fres_opt_ret : forall {A} (x : fres A) (a : A), x = FRet a -> fres_opt x = Some a.
 Proof. intros A x a ->. reflexivity. Qed.
 
 (* ------------------------------------------------------------------ *)
-(* regex_match against the model's regex_match_words (alternatives of literal words, optionally anchored) *)
-(* the FULL statement is FALSE of the model: regex_match_words reads `^GET|POST$` as "GET or POST, anchored on both
-   sides"; the crate (and the source) read it as `(^GET)|(POST$)`.  Real code: regex_match("GETx", "^GET|POST$") = true,
-   the model answers Some false.  FINDING (model wrong), confirmed by running /repo. *)
-Definition fm_regex_match_words_full : Prop :=
-  forall k pat b, regex_match_words k pat = Some b -> gen_regex_match_r k pat = FRet b.
-Theorem fm_regex_match_words_refuted :
-  exists k pat b, regex_match_words k pat = Some b /\ gen_regex_match_r k pat = FRet (negb b).
-Proof. exists (T "GETx"), (T "^GET|POST$"), false. split; vm_compute; reflexivity. Qed.
+(* regex_match against the model's regex_match_words (alternatives of literal words, optionally anchored):
+   whenever the model answers, the generated function returns the same value.  (An anchored BARE alternation,
+   `^GET|POST$`, is outside the model's class: the crate reads it as `(^GET)|(POST$)`.) *)
+Definition rmw_core (k : text) (a_start a_end : bool) (body : text) : option bool :=
+  if (a_start || a_end) && teqb (strip_parens body) body && Nat.ltb 1 (length (split_bar body []))
+  then None else
+  let body := if a_start || a_end then strip_parens body else body in
+  let words := map strip_parens (split_bar body []) in
+  if forallb safe_word words then
+    Some (existsb (fun w =>
+                     match a_start, a_end with
+                     | true, true => teqb w k
+                     | true, false => is_prefix w k
+                     | false, true => is_prefix (rev w) (rev k)
+                     | false, false => is_infix w k
+                     end) words)
+  else None.
+Lemma rmw_end : forall (F : text -> bool -> option bool) body1,
+  exists (a_end : bool) (body : text), body1 = body ++ (if a_end then ["$"%char] else []) /\
+  (let (body, a_end) := match rev body1 with
+                        | d :: m => if Ascii.eqb d "$"%char then (rev m, true) else (body1, false)
+                        | [] => (body1, false) end in F body a_end) = F body a_end.
+Proof.
+  intros F body1. destruct (rev body1) as [|d m] eqn:Er.
+  - exists false, body1. split; [rewrite app_nil_r; reflexivity|reflexivity].
+  - destruct (Ascii.eqb d "$"%char) eqn:Ed.
+    + apply Ascii.eqb_eq in Ed. subst d. exists true, (rev m). split; [|reflexivity].
+      rewrite <- (rev_involutive body1), Er. reflexivity.
+    + exists false, body1. split; [rewrite app_nil_r; reflexivity|reflexivity].
+Qed.
+Lemma rmw_shape : forall k pat, exists (a_start a_end : bool) (body : text),
+  pat = (if a_start then ["^"%char] else []) ++ body ++ (if a_end then ["$"%char] else []) /\
+  regex_match_words k pat = rmw_core k a_start a_end body.
+Proof.
+  intros k pat. unfold regex_match_words. destruct pat as [|c r].
+  - destruct (rmw_end (fun body a_end => rmw_core k false a_end body) []) as [a_end [body [E H]]].
+    exists false, a_end, body. split; [exact E|exact H].
+  - destruct (Ascii.eqb c "^"%char) eqn:Ec.
+    + apply Ascii.eqb_eq in Ec. subst c.
+      destruct (rmw_end (fun body a_end => rmw_core k true a_end body) r) as [a_end [body [E H]]].
+      exists true, a_end, body. split; [cbn [app]; rewrite <- E; reflexivity|exact H].
+    + destruct (rmw_end (fun body a_end => rmw_core k false a_end body) (c :: r)) as [a_end [body [E H]]].
+      exists false, a_end, body. split; [exact E|exact H].
+Qed.
 
-(* PARTIAL: one word anchored on both sides, `^word$`, and (further down) one unanchored word (missing: several
-   alternatives - where the model is wrong unless they are parenthesised -, one-sided anchors) *)
-Lemma amatch_word : forall w k, amatch (map AByte w) k = if teqb w k then Some [] else None.
+Theorem fm_regex_match_words_ok : forall k pat b,
+  regex_match_words k pat = Some b -> gen_regex_match_r k pat = FRet b.
 Proof.
-  induction w as [|c w IH]; intros k.
-  - rewrite amatch_nil. destruct k; reflexivity.
-  - cbn [map]. rewrite amatch_byte. destruct k as [|d k]; [reflexivity|]. cbn [teqb].
-    destruct (Ascii.eqb c d); [apply IH|reflexivity].
+  intros k pat b H. destruct (rmw_shape k pat) as [a_start [a_end [body [Hpat Hc]]]]. rewrite Hc in H. clear Hc. subst pat.
+  unfold rmw_core in H. destruct (a_start || a_end) eqn:Ean.
+  - cbn [andb] in H. destruct (teqb (strip_parens body) body) eqn:Es.
+    + (* one bare word between the anchors *)
+      cbn [andb] in H. destruct (Nat.ltb 1 (length (split_bar body []))) eqn:El; [discriminate|].
+      apply teqb_eq in Es. rewrite Es in H.
+      assert (Hsb : split_bar body [] = [body]).
+      { pose proof (split_bar_join body []) as Hj. pose proof (split_bar_nonempty body []) as Hn. apply Nat.ltb_ge in El.
+        destruct (split_bar body []) as [|x [|y l]]; [contradiction| |cbn [length] in El; lia].
+        cbn [join_bar rev app] in Hj. subst x. reflexivity. }
+      rewrite Hsb in H. cbn [map forallb] in H. rewrite Es in H. destruct (safe_word body) eqn:Hw; [|discriminate].
+      cbn [andb] in H. injection H as <-. destruct (safe_word_safe body Hw) as [Hne Hs].
+      destruct (rx_compile_anchored a_start a_end body (word_toks body) [body]
+                  (fun rest => lex_word body rest Hs) (core_word body Hne)) as [Y [Hy Ht]].
+      rewrite (fm_regex_match_ok k _ _ Hy). f_equal. exact (model_reading a_start a_end Y [body] k Ht).
+    + (* an alternation in one pair of parentheses between the anchors *)
+      cbn [andb] in H. destruct (strip_parens_cases body) as [Hx|Hx]; [rewrite Hx, teqb_refl in Es; discriminate|].
+      set (inner := strip_parens body) in *.
+      destruct (forallb safe_word (map strip_parens (split_bar inner []))) eqn:Hf; [|discriminate]. injection H as <-.
+      set (items := map mkitem (split_bar inner [])).
+      assert (Hne : items <> []).
+      { unfold items. pose proof (split_bar_nonempty inner []) as Hn. destruct (split_bar inner []); [contradiction|discriminate]. }
+      assert (Hok : Forall item_ok items) by (apply mkitems_ok, Hf).
+      assert (Hb : body = paren (alt_text items)).
+      { unfold items. rewrite alt_text_mkitems, split_bar_join. exact Hx. }
+      destruct (rx_compile_anchored a_start a_end (paren (alt_text items)) (KOpen true :: alt_toks items ++ [KClose])
+                  (map snd items) (fun rest => lex_paren_alt items rest Hne Hok) (core_paren items Hne Hok)) as [Y [Hy Ht]].
+      rewrite Hb, (fm_regex_match_ok k _ _ Hy). f_equal. unfold items in *. rewrite mkitems_words in Ht.
+      apply model_reading, Ht.
+  - (* no anchor: an alternation of words, each bare or in parentheses; a search *)
+    apply orb_false_iff in Ean. destruct Ean as [-> ->]. cbn [andb app] in *. rewrite app_nil_r.
+    destruct (forallb safe_word (map strip_parens (split_bar body []))) eqn:Hf; [|discriminate]. injection H as <-.
+    set (items := map mkitem (split_bar body [])).
+    assert (Hne : items <> []).
+    { unfold items. pose proof (split_bar_nonempty body []) as Hn. destruct (split_bar body []); [contradiction|discriminate]. }
+    assert (Hok : Forall item_ok items) by (apply mkitems_ok, Hf).
+    assert (Hb : body = alt_text items) by (unfold items; rewrite alt_text_mkitems, split_bar_join; reflexivity).
+    destruct (rx_compile_alt items Hne Hok) as [Y [Hy Hw]].
+    rewrite Hb at 1. rewrite (fm_regex_match_ok k _ _ Hy). f_equal. unfold items in *. rewrite mkitems_words in Hw.
+    apply (model_reading false false Y _ k), words_tail_all, Hw.
 Qed.
-Lemma safe_word_plainw : forall w, safe_word w = true -> plainw w.
-Proof. intros w H. apply safe_plainw. apply safe_word_safe in H. apply H. Qed.
-Lemma parse_regex_word : forall w, plainw w -> parse_regex (anchor w) = Some (map AByte w).
-Proof.
-  intros w Hw. rewrite parse_regex_anchor.
-  replace (parse_atoms (S (length (w ++ ["$"%char]))) w) with (parse_atoms (S (length (w ++ ["$"%char]))) (w ++ []))
-    by (rewrite app_nil_r; reflexivity).
-  rewrite parse_word by (exact Hw || (rewrite app_nil_r, app_length; cbn [length]; lia)).
-  rewrite app_length. cbn [length]. replace (S (length w + 1) - length w) with 2 by lia.
-  cbn [parse_atoms option_map]. rewrite app_nil_r. reflexivity.
-Qed.
-Theorem fm_regex_match_word_partial : forall k w, safe_word w = true ->
-  gen_regex_match_r k (anchor w) = FRet (teqb w k).
-Proof.
-  intros k w Hw. rewrite (fm_regex_match_class k (anchor w) (map AByte w)) by (apply parse_regex_word, safe_word_plainw, Hw).
-  rewrite amatch_word. destruct (teqb w k); reflexivity.
-Qed.
-Lemma split_bar_safe : forall w cur, safe w -> split_bar w cur = [rev cur ++ w].
-Proof.
-  induction w as [|c w IH]; intros cur Hs; cbn [split_bar]; [rewrite app_nil_r; reflexivity|].
-  inversion Hs as [|c0 w0 Hc Hw]; subst.
-  replace (Ascii.eqb c "|"%char) with false by (symmetry; apply safe_neq; [exact Hc|reflexivity]).
-  rewrite IH by exact Hw. cbn [rev]. rewrite <- app_assoc. reflexivity.
-Qed.
-Lemma strip_parens_safe : forall w, safe w -> strip_parens w = w.
-Proof.
-  intros w Hs. destruct w as [|c r]; [reflexivity|]. inversion Hs as [|c0 w0 Hc Hw]; subst. cbn [strip_parens].
-  replace (Ascii.eqb c "("%char) with false by (symmetry; apply safe_neq; [exact Hc|reflexivity]). reflexivity.
-Qed.
-(* .. and the model says the same there *)
-Theorem regex_match_words_word : forall k w, safe_word w = true -> regex_match_words k (anchor w) = Some (teqb w k).
-Proof.
-  intros k w Hw. pose proof (safe_word_safe w Hw) as [Hne Hs].
-  unfold regex_match_words, anchor. change (Ascii.eqb "^"%char "^"%char) with true. cbv iota beta.
-  rewrite rev_app_distr. cbn [rev app]. change (Ascii.eqb "$"%char "$"%char) with true. cbv iota beta.
-  rewrite rev_involutive. cbn [orb]. rewrite (strip_parens_safe w Hs), (split_bar_safe w [] Hs).
-  cbn [rev app map]. rewrite (strip_parens_safe w Hs). cbn [forallb existsb]. rewrite Hw. cbn [andb].
-  rewrite orb_false_r. reflexivity.
-Qed.
+Theorem fm_regex_match_words_opt : forall k pat b, regex_match_words k pat = Some b -> gen_regex_match k pat = Some b.
+Proof. intros k pat b H. apply fres_opt_ret, fm_regex_match_words_ok, H. Qed.
 
 (* ------------------------------------------------------------------ *)
 (* the `option` views: the model answers Some b -> the generated function answers Some b *)
@@ -415,15 +444,11 @@ Theorem fm_key_get2_opt : forall k1 k2 v t, key_get2 k1 k2 v = Some t -> gen_key
 Proof. intros k1 k2 v t H. apply fres_opt_ret, fm_key_get2_ok, H. Qed.
 Theorem fm_key_get3_opt : forall k1 k2 v t, key_get3 k1 k2 v = Some t -> gen_key_get3 k1 k2 v = Some t.
 Proof. intros k1 k2 v t H. apply fres_opt_ret, fm_key_get3_ok, H. Qed.
-Theorem fm_key_match4_opt : forall k1 k2 b, km4_counts_agree k2 ->
-  key_match4 k1 k2 = Some b -> gen_key_match4 k1 k2 = Some b.
-Proof. intros k1 k2 b Hc H. apply fres_opt_ret, fm_key_match4_ok; assumption. Qed.
+Theorem fm_key_match4_opt : forall k1 k2 b, key_match4 k1 k2 = Some b -> gen_key_match4 k1 k2 = Some b.
+Proof. intros k1 k2 b H. apply fres_opt_ret, fm_key_match4_ok, H. Qed.
 Theorem fm_regex_match_opt : forall k t atoms, parse_regex t = Some atoms ->
   gen_regex_match k t = Some (is_some (amatch atoms k)).
 Proof. intros k t atoms H. apply fres_opt_ret, fm_regex_match_class, H. Qed.
-Theorem fm_regex_match_word_both : forall k w, safe_word w = true ->
-  gen_regex_match_r k (anchor w) = FRet (teqb w k) /\ regex_match_words k (anchor w) = Some (teqb w k).
-Proof. intros k w H. split; [exact (fm_regex_match_word_partial k w H)|exact (regex_match_words_word k w H)]. Qed.
 
 (* ------------------------------------------------------------------ *)
 (* directly on the PATTERN: plain bytes without a colon, then a `{` followed by a byte that cannot start a counted
@@ -476,71 +501,3 @@ Proof.
   - exact Hl.
 Qed.
 
-(* ------------------------------------------------------------------ *)
-(* regex_match, PARTIAL (continued): one unanchored word = a search for the word *)
-Lemma atoms_rx_bytes : forall w n z, atoms_rx n (map AByte w) z = RLitThen w z.
-Proof.
-  induction w as [|c w IH]; intros n z; [reflexivity|]. cbn [map atoms_rx atom_rx ncap RLitThen]. rewrite IH. reflexivity.
-Qed.
-Lemma atom_items_bytes_snoc : forall w n c,
-  atom_items n (map AByte (w ++ [c])) = atom_items n (map AByte w) ++ [(RChar c, atom_kind (AByte c))].
-Proof.
-  induction w as [|x w IH]; intros n c; [reflexivity|]. cbn [app map atom_items ncap]. rewrite IH. reflexivity.
-Qed.
-Lemma ncaps_bytes : forall w, ncaps (map AByte w) = 0.
-Proof. induction w as [|c w IH]; [reflexivity|exact IH]. Qed.
-(* the expression a word compiles to: its bytes, the last one closing the concatenation *)
-Theorem rx_compile_word : forall w0 cl, plainw (w0 ++ [cl]) -> rx_compile (w0 ++ [cl]) = RxOk (RLitThen w0 (RChar cl)).
-Proof.
-  intros w0 cl Hw. unfold rx_compile.
-  assert (Hp : parse_atoms (S (S (length (w0 ++ [cl])))) (w0 ++ [cl]) = Some (map AByte (w0 ++ [cl]))).
-  { replace (parse_atoms (S (S (length (w0 ++ [cl])))) (w0 ++ [cl]))
-      with (parse_atoms (S (S (length (w0 ++ [cl])))) ((w0 ++ [cl]) ++ [])) by (rewrite app_nil_r; reflexivity).
-    rewrite parse_word by (exact Hw || (rewrite app_nil_r; lia)).
-    replace (S (S (length (w0 ++ [cl]))) - length (w0 ++ [cl])) with 2 by lia.
-    cbn [parse_atoms option_map]. rewrite app_nil_r. reflexivity. }
-  rewrite <- (app_nil_r (w0 ++ [cl])) at 1. rewrite (lex_atoms _ _ _ Hp). cbn [rx_lex]. rewrite app_nil_r.
-  rewrite <- (app_nil_r (flat_map atom_toks (map AByte (w0 ++ [cl])))).
-  rewrite run_atoms by (cbn [p_init p_stack length]; unfold rx_max_depth; lia).
-  cbn [rx_run p_init p_stack p_alts p_cat p_n mk_alt fold_left]. rewrite app_nil_r, atom_items_bytes_snoc, rev_app_distr.
-  cbn [rev app mk_cat]. rewrite fold_cat_items, atoms_rx_bytes. reflexivity.
-Qed.
-Lemma mt_word : forall w0 cl b s,
-  is_some (mt (RLitThen w0 (RChar cl)) b s [] kfin) = is_prefix (w0 ++ [cl]) s.
-Proof.
-  induction w0 as [|c w0 IH]; intros cl b s; cbn [RLitThen app].
-  - rewrite mt_char. destruct s as [|x s]; [reflexivity|]. cbn [is_prefix]. rewrite (Ascii.eqb_sym cl x), andb_true_r.
-    destruct (Ascii.eqb x cl); reflexivity.
-  - rewrite mt_cat, mt_char. destruct s as [|x s]; [reflexivity|]. cbn [is_prefix]. rewrite (Ascii.eqb_sym c x).
-    destruct (Ascii.eqb x c); [apply IH|reflexivity].
-Qed.
-Lemma search_infix : forall r w, (forall b s, is_some (mt r b s [] kfin) = is_prefix w s) ->
-  forall s b g, is_some (search r b s g) = is_infix w s.
-Proof.
-  intros r w H. induction s as [|x s IH]; intros b g; cbn [search is_infix]; pose proof (H b) as Hb.
-  - specialize (Hb []). destruct (mt r b [] [] kfin) as [[[b1 s1] c]|]; cbn [is_some] in *; destruct w; cbn [is_prefix] in Hb; congruence.
-  - specialize (Hb (x :: s)). destruct (mt r b (x :: s) [] kfin) as [[[b1 s1] c]|]; cbn [is_some] in *.
-    + rewrite <- Hb. reflexivity.
-    + rewrite <- Hb. cbn [orb]. apply IH.
-Qed.
-Theorem fm_regex_match_plain_word_partial : forall k w, safe_word w = true ->
-  gen_regex_match_r k w = FRet (is_infix w k) /\ regex_match_words k w = Some (is_infix w k).
-Proof.
-  intros k w Hw. pose proof (safe_word_safe w Hw) as [Hne Hs].
-  destruct (exists_last Hne) as [w0 [cl Hw0]]. split.
-  - rewrite Hw0 in *. rewrite (fm_regex_match_ok k _ _ (rx_compile_word w0 cl (safe_plainw _ Hs))).
-    f_equal. unfold rx_is_match, rx_find.
-    pose proof (search_infix (RLitThen w0 (RChar cl)) (w0 ++ [cl]) (mt_word w0 cl) k [] []) as Hi.
-    destruct (search (RLitThen w0 (RChar cl)) [] k []); cbn [is_some] in Hi; exact Hi.
-  - unfold regex_match_words. destruct w as [|c0 r0]; [contradiction|].
-    inversion Hs as [|c1 w1 Hc0 Hr0]; subst.
-    replace (Ascii.eqb c0 "^"%char) with false by (symmetry; apply safe_neq; [exact Hc0|reflexivity]).
-    assert (Hrev : safe (rev (c0 :: r0))) by (apply Forall_rev; exact Hs).
-    destruct (rev (c0 :: r0)) as [|d m] eqn:Er.
-    + apply (f_equal (@rev ascii)) in Er. rewrite rev_involutive in Er. discriminate.
-    + inversion Hrev as [|d1 m1 Hd Hm]; subst.
-      replace (Ascii.eqb d "$"%char) with false by (symmetry; apply safe_neq; [exact Hd|reflexivity]).
-      cbn [orb]. rewrite (split_bar_safe (c0 :: r0) [] Hs). cbn [rev app map].
-      rewrite (strip_parens_safe (c0 :: r0) Hs). cbn [forallb existsb]. rewrite Hw. cbn [andb]. rewrite orb_false_r.
-      reflexivity.
-Qed.
